@@ -157,4 +157,3 @@ func (t *fnTr) cursorAssign(x *ast.AssignStmt, lv *lvar, next func() string) (st
 	lv.origin = nil
 	return "", false
 }
-
